@@ -1,7 +1,7 @@
 (* Dispatch: the three entry points the driver and the in-Coq cross-check use. *)
 From Coq Require Import String.
 From Coq Require Import List NArith ZArith Bool.
-From Verif Require Import GoStr GoNum GoHeader Sx Tables Route Forward Serve Wire Unit Monitors HistMon LimMon ConfigRun Crash.
+From Verif Require Import GoStr GoNum GoHeader Sx Tables Route Forward Serve Wire Unit Monitors HistMon LimMon ConfigRun Crash Coord.
 Import ListNotations.
 Open Scope N_scope.
 
@@ -20,6 +20,7 @@ Definition run (x : sx) : sx :=
   else if str_eqb fam (bytes "reload") then run_reload x
   else if str_eqb fam (bytes "swap") then run_swap x
   else if str_eqb fam (bytes "crash") then run_crash x
+  else if str_eqb fam (bytes "coord") then run_coord x
   else L [A (bytes "unknown-family")].
 
 Definition proj (x o : sx) : sx :=
@@ -30,6 +31,7 @@ Definition proj (x o : sx) : sx :=
   else if str_eqb fam (bytes "limrt") then proj_limrt o
   else if str_eqb fam (bytes "cfg") then proj_cfg o
   else if str_eqb fam (bytes "crash") then proj_crash x o
+  else if str_eqb fam (bytes "coord") then proj_coord o
   else o.
 
 Definition spec (prop : str) (x o : sx) : sx :=
@@ -51,6 +53,7 @@ Definition spec (prop : str) (x o : sx) : sx :=
   else if str_eqb fam (bytes "reload") then mon_C19_reload x o
   else if str_eqb fam (bytes "swap") then mon_C19_swap x o
   else if str_eqb fam (bytes "crash") then mon_C14 x o
+  else if str_eqb fam (bytes "coord") then (if str_eqb prop (bytes "C13") then mon_C13 x o else mon_C12 x o)
   else if str_eqb fam (bytes "route") then
     (if str_eqb prop (bytes "C01") then mon_C01 x o
      else if str_eqb prop (bytes "C02") then mon_C02 x o
